@@ -16,6 +16,7 @@ import (
 	"runtime"
 	"slices"
 	"strings"
+	"sync"
 	"time"
 
 	"github.com/btcsuite/btcd/btcec/v2"
@@ -67,6 +68,34 @@ type Mint struct {
 	publisher *pubsub.PubSub
 	ctx       context.Context
 	cancel    context.CancelFunc
+
+	// melt quotes that a melt request or a payment status refresh is acting on
+	// right now. A backend answer must be applied to the payment attempt it was
+	// given for: while one request is between asking the backend and updating the
+	// pending proofs and the quote, no other may start a new attempt on that quote.
+	busyMeltQuotesMu sync.Mutex
+	busyMeltQuotes   map[string]struct{}
+}
+
+// tryLockMeltQuote returns false if another request is acting on the quote.
+// It never blocks and is not held by anything that waits for it.
+func (m *Mint) tryLockMeltQuote(quoteId string) bool {
+	m.busyMeltQuotesMu.Lock()
+	defer m.busyMeltQuotesMu.Unlock()
+	if _, busy := m.busyMeltQuotes[quoteId]; busy {
+		return false
+	}
+	if m.busyMeltQuotes == nil {
+		m.busyMeltQuotes = make(map[string]struct{})
+	}
+	m.busyMeltQuotes[quoteId] = struct{}{}
+	return true
+}
+
+func (m *Mint) unlockMeltQuote(quoteId string) {
+	m.busyMeltQuotesMu.Lock()
+	defer m.busyMeltQuotesMu.Unlock()
+	delete(m.busyMeltQuotes, quoteId)
 }
 
 func LoadMint(config Config) (*Mint, error) {
@@ -716,6 +745,21 @@ func (m *Mint) GetMeltQuoteState(ctx context.Context, quoteId string) (storage.M
 
 	// if quote is pending, check with backend if status of payment has changed
 	if meltQuote.State == nut05.Pending {
+		// if a melt request or another status check is working on this quote, leave it to
+		// them. Otherwise a 'failed' answer obtained here could be applied after the quote
+		// was released and tried again, unlocking the proofs of the new payment attempt.
+		if !m.tryLockMeltQuote(quoteId) {
+			return meltQuote, nil
+		}
+		defer m.unlockMeltQuote(quoteId)
+		meltQuote, err = m.db.GetMeltQuote(quoteId)
+		if err != nil {
+			return storage.MeltQuote{}, cashu.QuoteNotExistErr
+		}
+		if meltQuote.State != nut05.Pending {
+			return meltQuote, nil
+		}
+
 		m.logDebugf("checking status of payment with hash '%v' for melt quote '%v'",
 			meltQuote.PaymentHash, meltQuote.Id)
 
@@ -822,6 +866,12 @@ func (m *Mint) MeltTokens(ctx context.Context, meltTokensRequest nut05.PostMeltB
 		Yhex := hex.EncodeToString(Y.SerializeCompressed())
 		Ys[i] = Yhex
 	}
+
+	// only one request at a time may act on a melt quote
+	if !m.tryLockMeltQuote(meltTokensRequest.Quote) {
+		return storage.MeltQuote{}, cashu.QuotePending
+	}
+	defer m.unlockMeltQuote(meltTokensRequest.Quote)
 
 	meltQuote, err := m.db.GetMeltQuote(meltTokensRequest.Quote)
 	if err != nil {
